@@ -4,6 +4,8 @@ mod sim;
 mod cmd_consts;
 mod cmd_layout;
 mod cmd_recon;
+#[cfg(feature = "matrix")]
+mod cmd_session;
 
 fn main() {
     std::panic::set_hook(Box::new(|_| {}));
@@ -13,6 +15,8 @@ fn main() {
         "consts" => cmd_consts::run(),
         "layout" => cmd_layout::run(),
         "recon" => cmd_recon::run(),
+        #[cfg(feature = "matrix")]
+        "session" => cmd_session::run(),
         "variant" => {
             println!(
                 "matrix={} ffr={} debug={}",
